@@ -2572,16 +2572,70 @@ func ruleSIB1() Rule {
 				n := 0
 				for _, sw := range switches(c.P, f) {
 					d := sw.clauseFor('$')
-					if d == nil || len(d.runes) != 1 {
+					if d == nil {
 						continue
+					}
+					// the scanner is called in the clause, or by a helper the clause hands the
+					// character to (`case '$', '`': if !l.scanExp(r) …`), at most three levels down
+					var reaches func(h *core.Func, g *core.Func, depth int) bool
+					reaches = func(h *core.Func, g *core.Func, depth int) bool {
+						if h == nil || h.Body == nil || depth > 3 || len(h.Body.List) > 8 {
+							return false
+						}
+						hi := h.Info()
+						runeParam := map[types.Object]bool{}
+						if h.Type.Params != nil {
+							for _, fld := range h.Type.Params.List {
+								for _, nm := range fld.Names {
+									if o := hi.Defs[nm]; o != nil && o.Type().String() == "rune" {
+										runeParam[o] = true
+									}
+								}
+							}
+						}
+						if len(runeParam) == 0 {
+							return false
+						}
+						found := false
+						h.OwnNodes(func(x ast.Node) bool {
+							call, ok := x.(*ast.CallExpr)
+							if !ok || found {
+								return !found
+							}
+							fo := core.StaticCallee(hi, call)
+							if fo == nil {
+								return true
+							}
+							k := c.P.FuncOf(fo)
+							if c.effective(k) == c.effective(g) {
+								found = true
+								return false
+							}
+							for _, a := range call.Args {
+								if id, isID := ast.Unparen(a).(*ast.Ident); isID && runeParam[hi.Uses[id]] && k != h && reaches(k, g, depth+1) {
+									found = true
+								}
+							}
+							return !found
+						})
+						return found
 					}
 					calls := func(cl *swClause, g *core.Func) bool {
 						found := false
 						for _, st := range cl.cc.Body {
 							ast.Inspect(st, func(x ast.Node) bool {
 								if call, ok := x.(*ast.CallExpr); ok {
-									if fo := core.StaticCallee(info, call); fo != nil && c.effective(c.P.FuncOf(fo)) == c.effective(g) {
-										found = true
+									if fo := core.StaticCallee(info, call); fo != nil {
+										k := c.P.FuncOf(fo)
+										if c.effective(k) == c.effective(g) {
+											found = true
+										} else if sw.tagObj != nil {
+											for _, a := range call.Args {
+												if id, isID := ast.Unparen(a).(*ast.Ident); isID && info.Uses[id] == sw.tagObj && reaches(k, g, 1) {
+													found = true
+												}
+											}
+										}
 									}
 								}
 								return !found
